@@ -1,2 +1,367 @@
--- C19 property theorems (to be written)
-import Nq.Basic
+/-
+  C19 — The POP3 server shows the maildir faithfully and deletes only on request.
+
+  Model: `Nq.Pop3` (qmail-pop3d.c with maildir.c, prioq.c, commands.c; qmail-popup.c), tied to the
+  source by the differential harnesses `harness/c19_pop3d.c`, `harness/c19_popup.c` and by the
+  translator (`Nq.Gen.Pop3Tab`: command tables, number scanner, tmp/ age).
+  Spec: `Nq.Pop3Ref` (RFC 1939 client decoder `popDecode`, `lines`, `topLines`).
+  Only property theorems live here.
+-/
+import Nq.Lemmas.Pop3Blast
+import Nq.Lemmas.Pop3Sess
+
+namespace Nq.Props.C19
+open Nq Nq.Pop3 Nq.Pop3Ref Nq.Lemmas.Pop3
+
+/-! ### RETR and TOP: what a client decodes is the stored message -/
+
+/-- **RETR.** For every stored message `m` (any bytes) and whatever follows on the connection
+(`rest`), an RFC 1939 client decodes what blast() sends with limit 0 to exactly the lines of `m`
+followed by the documented extra blank line, and stops exactly at the end of it: every LF sent
+follows a CR (else `popDecode` is `none`), every leading dot is stuffed, and the first lone-dot
+line is the last thing sent (else `rest` would not come back untouched). -/
+theorem C19_retr (m rest : Bytes) :
+    popDecode (blast 0 m ++ rest) = some (lines m ++ [[]], rest) := by
+  unfold popDecode blast
+  rw [blastLoop_eq_lines, getlns_nil_lines]
+  exact decode_all (lines m) true rest (lines_noLF m)
+
+/-- **TOP msg n** (blast() is called with limit n+1): the header lines, the blank line that ends
+them and the first `n` body lines (everything if the message has no blank line), then the extra
+blank line. -/
+theorem C19_top (n : Nat) (m rest : Bytes) :
+    popDecode (blast (n + 1) m ++ rest) = some (topLines n (lines m) ++ [[]], rest) := by
+  unfold popDecode blast
+  rw [blastLoop_eq_lines, getlns_nil_lines]
+  exact decode_top (lines m) n rest (lines_noLF m)
+
+/-- The reply to an accepted RETR/TOP is "+OK " CR LF followed by blast() of the file as it is on
+disk now, with the limit computed from the second number of the argument. -/
+theorem C19_retr_reply (s : Sess) (verb arg : Bytes) (i : Nat) (mm : Msg) (f : File)
+    (hv : verbIs vRetr verb = true ∨ verbIs vTop verb = true)
+    (hn : msgno s arg = .ok i) (hm : s.msgs[i]? = some mm) (hf : fsFind s.fs mm.fn = some f) :
+    exec s verb arg = (s, okLine ++ blast (topLimit arg) f.data, none) := by
+  have hl : lower verb = vRetr ∨ lower verb = vTop := by
+    rcases hv with h | h
+    · left; simpa [verbIs] using h
+    · right; simpa [verbIs] using h
+  rcases hl with h | h <;>
+    simp [exec, verbIs, h, hn, hm, hf, vQuit, vStat, vList, vUidl, vDele, vRetr, vTop, vRset, vLast, vNoop]
+
+/-- no second number: limit 0, the whole message (this is what RETR n and TOP n get) -/
+theorem C19_limit_whole (arg : Bytes)
+    (h : (scanUlong ((arg.drop (scanUlong arg).2).dropWhile (· = SP))).2 = 0) :
+    topLimit arg = 0 := by
+  simp [topLimit, h]
+
+/-- a second number k: limit k+1, i.e. k body lines by `C19_top` -/
+theorem C19_limit_count (arg : Bytes)
+    (h : (scanUlong ((arg.drop (scanUlong arg).2).dropWhile (· = SP))).2 ≠ 0)
+    (hk : (scanUlong ((arg.drop (scanUlong arg).2).dropWhile (· = SP))).1 + 1 < U64) :
+    topLimit arg = (scanUlong ((arg.drop (scanUlong arg).2).dropWhile (· = SP))).1 + 1 := by
+  simp [topLimit, h, Nat.mod_eq_of_lt hk]
+
+/-- The file that has vanished is refused, nothing is sent for it. -/
+theorem C19_retr_vanished (s : Sess) (verb arg : Bytes) (i : Nat) (mm : Msg)
+    (hv : verbIs vRetr verb = true ∨ verbIs vTop verb = true)
+    (hn : msgno s arg = .ok i) (hm : s.msgs[i]? = some mm) (hf : fsFind s.fs mm.fn = none) :
+    exec s verb arg = (s, errLine "unable to open that message", none) := by
+  have hl : lower verb = vRetr ∨ lower verb = vTop := by
+    rcases hv with h | h
+    · left; simpa [verbIs] using h
+    · right; simpa [verbIs] using h
+  rcases hl with h | h <;>
+    simp [exec, verbIs, h, hn, hm, hf, vQuit, vStat, vList, vUidl, vDele, vRetr, vTop, vRset, vLast, vNoop]
+
+/-! ### numbering -/
+
+/-- One command never changes which file (and which announced size) a message number denotes,
+nor how many messages there are. -/
+theorem C19_numbering_step (s : Sess) (verb arg : Bytes) :
+    (exec s verb arg).1.msgs.map ident = s.msgs.map ident := exec_ident s verb arg
+
+/-- **Numbering is fixed at start-up** for the whole session: whatever bytes arrive on
+descriptor 0, in whatever pieces, and whatever files other processes remove meanwhile. -/
+theorem C19_numbering (evs : List Ev) : ∀ r : Run,
+    (evs.foldl feedEv r).s.msgs.map ident = r.s.msgs.map ident := by
+  induction evs with
+  | nil => intro r; rfl
+  | cons e evs ih =>
+    intro r
+    rw [List.foldl_cons, ih]
+    cases e with
+    | vanish p => rw [feedEv_vanish]; cases r.exit <;> rfl
+    | data b => rw [feedEv_data]; exact feedBytes_ident b r
+
+/-! ### deletion -/
+
+/-- **Nothing is unlinked or renamed before QUIT**, and only QUIT ends the session. -/
+theorem C19_only_quit_touches (s : Sess) (verb arg : Bytes) (h : verbIs vQuit verb = false) :
+    (exec s verb arg).1.fs = s.fs ∧ (exec s verb arg).2.2 = none := exec_nonquit s verb arg h
+
+/-- **Without QUIT nothing is removed**: if the session ends any other way (the connection is
+dropped, the input ends in an unfinished line) the maildir is exactly what the other processes
+left — whatever DELE commands were accepted. -/
+theorem C19_no_quit_no_delete (evs : List Ev) : ∀ r : Run,
+    (evs.foldl feedEv r).exit = none → (evs.foldl feedEv r).s.fs = vanished evs r.s.fs := by
+  induction evs with
+  | nil => intro r _; rfl
+  | cons e evs ih =>
+    intro r h
+    rw [List.foldl_cons] at h ⊢
+    have h1 : (feedEv r e).exit = none := by
+      cases hx : (feedEv r e).exit with
+      | none => rfl
+      | some x => rw [feedEvs_exit_some evs _ x hx] at h; rw [hx] at h; exact absurd h (by simp)
+    rw [ih _ h]
+    cases e with
+    | data b => simp only [vanished]; rw [feedEv_data] at h1 ⊢; rw [feedBytes_fs b r h1]
+    | vanish p =>
+      simp only [vanished]
+      rw [feedEv_vanish] at h1 ⊢
+      cases hx : r.exit with
+      | some x => simp [hx] at h1
+      | none => rfl
+
+/-- **QUIT keeps every unmarked message.** A file that is not a marked message (and is not in
+new/, where it gets its new name, and does not carry the name a new/ message is about to get) is
+found after QUIT exactly as before. -/
+theorem C19_quit_keeps (s : Sess) (verb arg p : Bytes) (f : File) (hq : verbIs vQuit verb = true)
+    (hf : fsFind s.fs p = some f)
+    (h1 : ∀ m ∈ s.msgs, m.fn = p → m.del = false ∧ (m.fn.take 4 == newSl) = false)
+    (h2 : ∀ m ∈ s.msgs, seenName m.fn ≠ p) :
+    fsFind (exec s verb arg).1.fs p = some f := by
+  simp only [exec, hq, if_true]
+  exact quit_keeps s.msgs s.fs [] p f hf h1 h2
+
+/-- **QUIT removes every marked message** (maildir names being unique: no new/ message is renamed
+onto it). -/
+theorem C19_quit_removes (s : Sess) (verb arg : Bytes) (m : Msg) (hq : verbIs vQuit verb = true)
+    (hm : m ∈ s.msgs) (hd : m.del = true) (h2 : ∀ x ∈ s.msgs, seenName x.fn ≠ m.fn) :
+    fsFind (exec s verb arg).1.fs m.fn = none := by
+  simp only [exec, hq, if_true]
+  exact quit_removes s.msgs s.fs [] m hm hd h2
+
+/-- **The marks are set by an accepted DELE only** … -/
+theorem C19_dele_marks (s : Sess) (verb arg : Bytes) (i : Nat) (hv : verbIs vDele verb = true)
+    (hn : msgno s arg = .ok i) :
+    exec s verb arg = ({ s with msgs := setDel s.msgs i, last := if i + 1 > s.last then i + 1 else s.last }, okLine, none) := by
+  have h : lower verb = vDele := by simpa [verbIs] using hv
+  simp [exec, verbIs, h, hn, vQuit, vStat, vList, vUidl, vDele]
+
+/-- … **RSET clears them all** … -/
+theorem C19_rset_unmarks (s : Sess) (verb arg : Bytes) (hv : verbIs vRset verb = true) :
+    (exec s verb arg).1.msgs = s.msgs.map (fun m => { m with del := false }) ∧
+    (exec s verb arg).1.fs = s.fs ∧ (exec s verb arg).2.1 = okLine := by
+  have h : lower verb = vRset := by simpa [verbIs] using hv
+  simp [exec, verbIs, h, vQuit, vStat, vList, vUidl, vDele, vRetr, vTop, vRset]
+
+/-- … **and no other command touches them.** -/
+theorem C19_marks_unchanged (s : Sess) (verb arg : Bytes)
+    (h1 : verbIs vDele verb = false) (h2 : verbIs vRset verb = false) :
+    (exec s verb arg).1.msgs = s.msgs := by
+  unfold exec
+  simp only [h1, h2]
+  repeat' split
+  all_goals simp_all
+
+/-! ### refused message numbers -/
+
+/-- **A refused number has no effect**: for every command that takes a message number, if msgno()
+refuses the argument the reply is that "-ERR …" line and the state (marks, `last`, maildir) is
+unchanged. -/
+theorem C19_refuse (s : Sess) (verb arg r : Bytes) (h : msgno s arg = .err r)
+    (hv : verbIs vDele verb = true ∨ verbIs vRetr verb = true ∨ verbIs vTop verb = true ∨
+          ((verbIs vList verb = true ∨ verbIs vUidl verb = true) ∧ arg ≠ [])) :
+    exec s verb arg = (s, r, none) := by
+  rcases hv with hv | hv | hv | ⟨hv | hv, ha⟩
+  · have hl : lower verb = vDele := by simpa [verbIs] using hv
+    simp [exec, verbIs, hl, h, vQuit, vStat, vList, vUidl, vDele, vRetr, vTop, vRset, vLast, vNoop]
+  · have hl : lower verb = vRetr := by simpa [verbIs] using hv
+    simp [exec, verbIs, hl, h, vQuit, vStat, vList, vUidl, vDele, vRetr, vTop, vRset, vLast, vNoop]
+  · have hl : lower verb = vTop := by simpa [verbIs] using hv
+    simp [exec, verbIs, hl, h, vQuit, vStat, vList, vUidl, vDele, vRetr, vTop, vRset, vLast, vNoop]
+  · have hl : lower verb = vList := by simpa [verbIs] using hv
+    simp [exec, verbIs, hl, h, ha, vQuit, vStat, vList, vUidl, vDele, vRetr, vTop, vRset, vLast, vNoop]
+  · have hl : lower verb = vUidl := by simpa [verbIs] using hv
+    simp [exec, verbIs, hl, h, ha, vQuit, vStat, vList, vUidl, vDele, vRetr, vTop, vRset, vLast, vNoop]
+
+/-- what msgno() refuses: no digits, zero, beyond the last message, or already marked — always
+with a "-ERR " line -/
+theorem C19_refuse_when (s : Sess) (arg : Bytes)
+    (h : (scanUlong arg).2 = 0 ∨ (scanUlong arg).1 = 0 ∨ (scanUlong arg).1 > s.msgs.length ∨
+         (∃ m, s.msgs[(scanUlong arg).1 - 1]? = some m ∧ m.del = true)) :
+    ∃ r, msgno s arg = .err r ∧ r.take 5 = errSp := by
+  unfold msgno
+  generalize scanUlong arg = up at h
+  obtain ⟨u, pos⟩ := up
+  simp only at h ⊢
+  by_cases h0 : pos = 0
+  · exact ⟨errLine "syntax error", by simp [h0], errLine_take _⟩
+  by_cases h1 : u = 0
+  · exact ⟨errLine "messages are counted from 1", by simp [h0, h1], errLine_take _⟩
+  by_cases h2 : u - 1 ≥ s.msgs.length ∨ u - 1 ≥ INT_MAX
+  · exact ⟨errLine "not that many messages", by simp only [h0, h1, h2, if_true, if_false], errLine_take _⟩
+  simp only [h0, h1, h2, if_false]
+  rcases h with h | h | h | ⟨m, hm, hd⟩
+  · exact absurd h h0
+  · exact absurd h h1
+  · exfalso; apply h2; left; omega
+  · rw [hm]; exact ⟨errLine "already deleted", by simp [hd], errLine_take _⟩
+
+/-- a number below 2^64 is read exactly … -/
+theorem C19_scan_exact (arg : Bytes) (h : decVal (arg.takeWhile isDigit) < U64) :
+    scanUlong arg = (decVal (arg.takeWhile isDigit), (arg.takeWhile isDigit).length) := by
+  unfold scanUlong scanWith
+  cases Gen.Pop3Tab.scanSaturates
+  · simp [Nat.mod_eq_of_lt h]
+  · have : decVal (arg.takeWhile isDigit) ≤ U64 - 1 := by unfold U64 at *; omega
+    simp [Nat.min_eq_left this]
+
+/-- … and **a number of 2^64 or more is refused like any other number that is too big**
+(the source reads numbers with the saturating scanner: `Gen.Pop3Tab.scanSaturates` is regenerated
+from qmail-pop3d.c on every run, and this proof fails if msgno() goes back to scan_ulong, which
+took such numbers modulo 2^64). -/
+theorem C19_refuse_huge (s : Sess) (arg : Bytes) (h : decVal (arg.takeWhile isDigit) ≥ U64) :
+    ∃ r, msgno s arg = .err r ∧ r.take 5 = errSp := by
+  have hs : Gen.Pop3Tab.scanSaturates = true := rfl
+  have hu : (scanUlong arg).1 = U64 - 1 := by
+    unfold scanUlong scanWith
+    simp only [hs, if_true]
+    exact Nat.min_eq_right (by unfold U64 at *; omega)
+  unfold msgno
+  generalize scanUlong arg = up at hu
+  obtain ⟨u, pos⟩ := up
+  simp only at hu ⊢
+  by_cases h0 : pos = 0
+  · exact ⟨errLine "syntax error", by simp [h0], errLine_take _⟩
+  have h2 : u - 1 ≥ s.msgs.length ∨ u - 1 ≥ INT_MAX := by right; rw [hu]; unfold U64 INT_MAX; omega
+  have h1 : u ≠ 0 := by rw [hu]; unfold U64; omega
+  exact ⟨errLine "not that many messages", by simp only [h0, h1, h2, if_true, if_false], errLine_take _⟩
+
+/-! ### sizes and unique ids -/
+
+/-- **LIST n** announces the size the file had at start-up, **UIDL n** the file name below new/
+or cur/ up to the first colon. -/
+theorem C19_list_reply (s : Sess) (verb arg : Bytes) (i : Nat) (m : Msg) (ha : arg ≠ [])
+    (hv : verbIs vList verb = true ∨ verbIs vUidl verb = true)
+    (hn : msgno s arg = .ok i) (hm : s.msgs[i]? = some m) :
+    exec s verb arg =
+      (s, okSp ++ fmtNat (i + 1) ++ [SP] ++
+          (if verbIs vUidl verb then (m.fn.drop 4).takeWhile (· ≠ COLON) else fmtNat m.size) ++ [CR, LF], none) := by
+  rcases hv with hv | hv
+  all_goals
+    have hl := by simpa [verbIs] using hv
+    simp [exec, verbIs, hl, hn, hm, ha, listLine, uidOf, vQuit, vStat, vList, vUidl]
+
+/-- the size recorded at start-up is the length of the file of that name then; nothing starts
+out marked -/
+theorem C19_sizes (now : Nat) (fs : FS) : ∀ m ∈ getlist now fs,
+    m.size = (match fsFind fs m.fn with | some f => f.data.length | none => 0) ∧ m.del = false := by
+  intro m hm
+  unfold getlist at hm
+  simp only [List.mem_map] at hm
+  obtain ⟨e, _, rfl⟩ := hm
+  exact ⟨rfl, rfl⟩
+
+/-- LIST / UIDL without argument: one line per unmarked message, in number order, then the dot -/
+theorem C19_listing (s : Sess) (verb arg : Bytes) (ha : arg = [])
+    (hv : verbIs vList verb = true ∨ verbIs vUidl verb = true) :
+    exec s verb arg = (s, okLine ++ listAll (verbIs vUidl verb) 0 s.msgs ++ [DOT, CR, LF], none) := by
+  rcases hv with hv | hv
+  all_goals
+    have hl := by simpa [verbIs] using hv
+    simp [exec, verbIs, hl, ha, vQuit, vStat, vList, vUidl]
+
+/-! ### refusing to run as root -/
+
+/-- **uid 0**: exit 1 with the message on descriptor 2, nothing on descriptor 1, and the maildir
+is not even looked at (the result does not depend on it, nor on the input). -/
+theorem C19_root (havedir : Bool) (now : Nat) (fs : FS) (evs : List Ev) :
+    Pop3.main 0 havedir now fs evs = { out := [], err := rootMsg, code := 1, fs := fs } := by
+  simp [Pop3.main]
+
+/-! ### before authentication (qmail-popup) -/
+
+/-- **Only USER, PASS, APOP, QUIT and NOOP are honoured**: anything else is answered
+"-ERR authorization first", changes nothing and starts nothing. -/
+theorem C19_preauth_refuse (s : Popup.PSt) (verb arg : Bytes)
+    (h : verbIs vUser verb = false ∧ verbIs vPass verb = false ∧ verbIs vApop verb = false ∧
+         verbIs vQuit verb = false ∧ verbIs vNoop verb = false) :
+    ∃ r, Popup.pexec s verb arg = (s, r, .cont) ∧ r = errLine "authorization first" := by
+  obtain ⟨h1, h2, h3, h4, h5⟩ := h
+  exact ⟨_, by simp [Popup.pexec, h1, h2, h3, h4, h5], rfl⟩
+
+/-- USER then PASS: the checker is started with exactly the two arguments as given -/
+theorem C19_preauth_userpass (s : Popup.PSt) (v1 v2 user pass : Bytes)
+    (h1 : verbIs vUser v1 = true) (h2 : verbIs vPass v2 = true) (hu : user ≠ []) (hp : pass ≠ []) :
+    Popup.pexec s v1 user = ({ seenuser := true, username := user }, okLine, .cont) ∧
+    Popup.pexec { seenuser := true, username := user } v2 pass =
+      ({ seenuser := true, username := user }, [], .auth ⟨user, pass⟩) := by
+  have l1 : lower v1 = vUser := by simpa [verbIs] using h1
+  have l2 : lower v2 = vPass := by simpa [verbIs] using h2
+  constructor
+  · simp [Popup.pexec, verbIs, l1, hu]
+  · simp [Popup.pexec, verbIs, l2, hp, vUser, vPass]
+
+/-- APOP name digest: split at the first space, both parts as given -/
+theorem C19_preauth_apop (s : Popup.PSt) (verb name digest : Bytes)
+    (h : verbIs vApop verb = true) (hn : SP ∉ name) :
+    Popup.pexec s verb (name ++ SP :: digest) = (s, [], .auth ⟨name, digest⟩) := by
+  have l : lower verb = vApop := by simpa [verbIs] using h
+  have hall : ∀ a ∈ name, (fun x : Byte => decide (x ≠ SP)) a = true := by
+    intro a ha; simp; exact fun hh => hn (hh ▸ ha)
+  have ht := takeWhile_stop (fun x : Byte => decide (x ≠ SP)) name digest SP hall (by simp)
+  have hd := dropWhile_stop (fun x : Byte => decide (x ≠ SP)) name digest SP hall (by simp)
+  unfold Popup.pexec
+  simp only [verbIs, l]
+  rw [ht, hd]
+  simp [vUser, vPass, vApop]
+
+/-- **Descriptor 3 receives exactly** user NUL password NUL "<" unique hostname ">" NUL, where
+"<unique hostname>" is the timestamp of the greeting — or nothing at all if no USER/PASS or APOP
+was completed. -/
+theorem C19_preauth_fd3 (pid now : Nat) (host : Bytes) (child : Popup.Child) (input b : Bytes)
+    (h : (Popup.pmain pid now host child input).fd3 = some b) :
+    ∃ a : Popup.Auth, b = a.user ++ [NUL] ++ a.pass ++ [NUL] ++ [60] ++ Popup.unique pid now ++ host ++ [62, NUL] ∧
+      Popup.greeting pid now host = okSp ++ [60] ++ Popup.unique pid now ++ host ++ [62, CR, LF] := by
+  unfold Popup.pmain Popup.pfinish at h
+  generalize List.foldl Popup.pfeedByte _ input = r at h
+  cases hact : r.act with
+  | cont => simp [hact] at h
+  | exit c => simp [hact] at h
+  | auth a =>
+    simp only [hact] at h
+    refine ⟨a, ?_, rfl⟩
+    have : Popup.fd3 pid now host a = b := by simpa using h
+    rw [← this]; simp [Popup.fd3]
+
+/-! ### the command tables (regenerated from the sources on every run) -/
+
+/-- the verbs and handlers the model implements are those of the two `pop3commands[]` tables -/
+theorem C19_tables :
+    Gen.Pop3Tab.pop3dCmds = [(vQuit, "pop3_quit"), (vStat, "pop3_stat"), (vList, "pop3_list"), (vUidl, "pop3_uidl"),
+      (vDele, "pop3_dele"), (vRetr, "pop3_top"), (vRset, "pop3_rset"), (vLast, "pop3_last"), (vTop, "pop3_top"),
+      (vNoop, "okay")] ∧ Gen.Pop3Tab.pop3dDefault = "err_unimpl" ∧
+    Gen.Pop3Tab.popupCmds = [(vUser, "pop3_user"), (vPass, "pop3_pass"), (vApop, "pop3_apop"), (vQuit, "pop3_quit"),
+      (vNoop, "okay")] ∧ Gen.Pop3Tab.popupDefault = "err_authoriz" :=
+  ⟨rfl, rfl, rfl, rfl⟩
+
+/-! ### Non-vacuity (bytes written out: 10 = LF, 13 = CR, 46 = '.', 97 = 'a', 32 = SP) -/
+
+/-- "a LF LF . LF . . LF b" — header, blank, a lone dot, a dot-dot line, unterminated last line -/
+example : blast 0 [97, 10, 10, 46, 10, 46, 46, 10, 98]
+    = [97, 13, 10, 13, 10, 46, 46, 13, 10, 46, 46, 46, 13, 10, 98, 13, 10, 13, 10, 46, 13, 10] := by decide
+example : lines [97, 10, 10, 46, 10, 46, 46, 10, 98] = [[97], [], [46], [46, 46], [98]] := by decide
+example : popDecode (blast 0 [97, 10, 10, 46, 10, 46, 46, 10, 98] ++ [43])
+    = some ([[97], [], [46], [46, 46], [98], []], [43]) := by decide
+/-- TOP … 1 of the same message -/
+example : popDecode (blast 2 [97, 10, 10, 46, 10, 46, 46, 10, 98]) = some ([[97], [], [46], []], []) := by decide
+example : topLines 1 [[97], [], [46], [46, 46], [98]] = [[97], [], [46]] := by decide
+/-- "DELE 0", "DELE 3" with two messages, "DELE x" are refused -/
+example : ∃ r, msgno { msgs := [⟨[], 0, false⟩, ⟨[], 0, true⟩], last := 0, fs := [] } [48] = .err r := ⟨_, rfl⟩
+example : (scanWith true [49, 56, 52, 52, 54, 55, 52, 52, 48, 55, 51, 55, 48, 57, 53, 53, 49, 54, 49, 55]).1 = U64 - 1 := by decide
+/-- … while the wrapping scanner reads 2^64+1 as 1 -/
+example : (scanWith false [49, 56, 52, 52, 54, 55, 52, 52, 48, 55, 51, 55, 48, 57, 53, 53, 49, 54, 49, 55]).1 = 1 := by decide
+
+end Nq.Props.C19
